@@ -310,7 +310,7 @@ func findFuncDecl(p *packages.Package, key string) (*ast.FuncDecl, *ast.File) {
 }
 
 // loops in source pre-order, not descending into function literals
-func loopsOf(body ast.Node) []ast.Stmt {
+func loopsOf(p *packages.Package, body ast.Node) []ast.Stmt {
 	var out []ast.Stmt
 	ast.Inspect(body, func(n ast.Node) bool {
 		switch n := n.(type) {
@@ -319,6 +319,12 @@ func loopsOf(body ast.Node) []ast.Stmt {
 		case *ast.ForStmt:
 			out = append(out, n)
 		case *ast.RangeStmt:
+			if n != body {
+				if _, ok := p.TypesInfo.TypeOf(n.X).Underlying().(*types.Signature); ok {
+					// range over a function: the body is a separate (yield) function, not a loop here
+					return false
+				}
+			}
 			out = append(out, n)
 		}
 		return true
@@ -535,27 +541,20 @@ func generateSpecFile(p *packages.Package, pc *PkgContracts) (string, error) {
 			// missing target: reported later as a violation of the property (contract target vanished)
 			continue
 		}
-		var fnNode ast.Node = fd
-		var ftype *ast.FuncType = fd.Type
 		var body *ast.BlockStmt = fd.Body
+		var sig *types.Signature
+		fscope := p.TypesInfo.Scopes[fd.Type]
 		if strings.Contains(fc.Key, "$") {
-			lit := findFuncLit(fd, fc.Key)
-			if lit == nil {
+			body, fscope, sig = findAnonFunc(p, fd, fc.Key)
+			if body == nil {
 				continue
 			}
-			fnNode, ftype, body = lit, lit.Type, lit.Body
-		}
-		_ = fnNode
-		if body == nil {
-			continue
-		}
-		var sig *types.Signature
-		if strings.Contains(fc.Key, "$") {
-			sig, _ = p.TypesInfo.TypeOf(fnNode.(*ast.FuncLit)).(*types.Signature)
 		} else if obj, ok := p.TypesInfo.Defs[fd.Name].(*types.Func); ok {
 			sig = obj.Type().(*types.Signature)
 		}
-		fscope := p.TypesInfo.Scopes[ftype]
+		if body == nil {
+			continue
+		}
 		for _, c := range append(append([]*Clause{}, fc.Requires...), fc.Ensures...) {
 			ps, err := g.clauseParams(c.Text, fscope, body.Lbrace+1, sig, fmt.Sprintf("%s:%d", pc.File, c.Line))
 			if err != nil {
@@ -600,7 +599,7 @@ func generateSpecFile(p *packages.Package, pc *PkgContracts) (string, error) {
 			fmt.Fprintf(&g.b, "func %s(%s) %s { return %s }\n\n", c.FnSym, strings.Join(parts, ", "), types.TypeString(tv.Type, g.qualifier), base)
 			fc.modClauses[i] = c
 		}
-		loops := loopsOf(body)
+		loops := loopsOf(p, body)
 		ks := []int{}
 		for k := range fc.LoopInv {
 			ks = append(ks, k)
